@@ -38,7 +38,7 @@ func (h HTTPIndexHandler) ServeHTTP(w http.ResponseWriter, r *http.Request) {
 func (h HTTPIndexHandler) get(indexName string, w http.ResponseWriter) {
 	idx, err := h.s.GetIndex(indexName)
 	if err != nil {
-		if os.IsNotExist(err) {
+		if isIndexNotFound(err) {
 			w.WriteHeader(http.StatusNotFound)
 		} else {
 			w.WriteHeader(http.StatusBadRequest)
@@ -56,12 +56,24 @@ func (h HTTPIndexHandler) get(indexName string, w http.ResponseWriter) {
 }
 
 func (h HTTPIndexHandler) head(indexName string, w http.ResponseWriter) {
-	_, err := h.s.GetIndexReader(indexName)
-	if err != nil {
+	r, err := h.s.GetIndexReader(indexName)
+	switch {
+	case err == nil:
+		r.Close()
 		w.WriteHeader(http.StatusOK)
-		return
+	case isIndexNotFound(err):
+		w.WriteHeader(http.StatusNotFound)
+	default:
+		http.Error(w, err.Error(), http.StatusInternalServerError)
 	}
-	w.WriteHeader(http.StatusNotFound)
+}
+
+// isIndexNotFound tells a missing index (local file or upstream object) from a failure
+func isIndexNotFound(err error) bool {
+	if _, ok := err.(NoSuchObject); ok {
+		return true
+	}
+	return os.IsNotExist(err)
 }
 
 func (h HTTPIndexHandler) put(indexName string, w http.ResponseWriter, r *http.Request) {
